@@ -138,10 +138,47 @@ func runC13(p *core.Program, r *core.Report) {
 	}
 }
 
+// c13Prog: the program under analysis (set by runC13/runC11 users of simplePaths) — lets simplePaths
+// follow guard helpers.
+var c13Prog *core.Program
+
+// guardHelper: a call of a function of the module whose body is nothing but rejecting guards
+// (`if cond { panic(...) }` statements): checkIndex(head, i, size). Its body with the arguments in place.
+func guardHelperBody(in *inliner, call *ast.CallExpr) *ast.BlockStmt {
+	b := in.Body(call)
+	if b == nil || len(b.List) == 0 {
+		return nil
+	}
+	for _, st := range b.List {
+		ifs, ok := st.(*ast.IfStmt)
+		if !ok || ifs.Else != nil || ifs.Init != nil || len(ifs.Body.List) != 1 {
+			return nil
+		}
+		es, ok := ifs.Body.List[0].(*ast.ExprStmt)
+		if !ok {
+			return nil
+		}
+		c, ok := es.X.(*ast.CallExpr)
+		if !ok {
+			return nil
+		}
+		if id, ok := c.Fun.(*ast.Ident); !ok || id.Name != "panic" {
+			return nil
+		}
+	}
+	return b
+}
+
 func simplePaths(fi *core.FuncInfo, classify func(ast.Node) []paths.Event) ([]paths.Path, bool) {
 	rn := recvName(fi)
+	var inl func(call *ast.CallExpr) *ast.BlockStmt
+	if c13Prog != nil {
+		in := newInliner(c13Prog, fi, nil)
+		inl = func(call *ast.CallExpr) *ast.BlockStmt { return guardHelperBody(in, call) }
+	}
 	return paths.Enumerate(fi.Decl.Body, paths.Config{
 		Info:     fi.Pkg.TypesInfo,
+		Inline:   inl,
 		Classify: classify,
 		Cond: func(c ast.Expr, v bool) *paths.Event {
 			norm := func(e ast.Expr) string { return strings.ReplaceAll(stripSpaces(types.ExprString(e)), rn+".", "") }
@@ -151,6 +188,7 @@ func simplePaths(fi *core.FuncInfo, classify func(ast.Node) []paths.Event) ([]pa
 }
 
 func c13Bounds(p *core.Program, r *core.Report, t *types.Named) {
+	c13Prog = p
 	tn := "util/list." + t.Obj().Name()
 	for _, fi := range p.MethodsOf(t) {
 		if fi.Decl.Body == nil {
@@ -532,6 +570,9 @@ type cmpEnv struct {
 	bools map[string]bool
 	ints  map[types.Object]int
 	o1, o2 string
+	// elemOf: which element (1 or 2) an operand of a comparison belongs to and whether it is that
+	// element's value or its original index ("value" / "key"); nil = the o1.value / o1.key spelling
+	elemOf func(e ast.Expr) (int, string)
 	err   string
 	inl   *inliner // helpers returning the comparison (compareKeyVal(asc, o1, o2)) are followed with arguments substituted
 	depth int
@@ -634,6 +675,16 @@ func (e *cmpEnv) evalInt(x ast.Expr) int {
 		fn := stripSpaces(types.ExprString(v.Fun))
 		if strings.HasPrefix(fn, "compare.CompareTo") && len(v.Args) == 2 {
 			a, b := stripSpaces(types.ExprString(v.Args[0])), stripSpaces(types.ExprString(v.Args[1]))
+			if e.elemOf != nil {
+				ea, ra := e.elemOf(v.Args[0])
+				eb, rb := e.elemOf(v.Args[1])
+				switch {
+				case ra == "value" && rb == "value" && ea == 1 && eb == 2:
+					return e.P
+				case ra == "value" && rb == "value" && ea == 2 && eb == 1:
+					return -e.P
+				}
+			}
 			switch {
 			case a == e.o1+".value" && b == e.o2+".value":
 				return e.P
@@ -646,6 +697,16 @@ func (e *cmpEnv) evalInt(x ast.Expr) int {
 			dir := stripSpaces(types.ExprString(v.Args[1]))
 			if dir != "childAsc" {
 				e.err = "child comparison does not use the child's own direction flag (" + dir + ")"
+			}
+			if e.elemOf != nil {
+				ea, ra := e.elemOf(v.Args[2])
+				eb, rb := e.elemOf(v.Args[3])
+				switch {
+				case ra == "key" && rb == "key" && ea == 1 && eb == 2:
+					return e.C
+				case ra == "key" && rb == "key" && ea == 2 && eb == 1:
+					return -e.C
+				}
 			}
 			switch {
 			case a == e.o1+".key" && b == e.o2+".key":
@@ -790,6 +851,43 @@ func (e *cmpEnv) run(list []ast.Stmt) (bool, bool) {
 			if res, ret := e.run(v.List); ret {
 				return res, true
 			}
+		case *ast.SwitchStmt:
+			// a tagless switch is an if-chain; with a tag, each case value is compared with it
+			if v.Init != nil {
+				e.run([]ast.Stmt{v.Init})
+			}
+			var deflt *ast.CaseClause
+			taken := false
+			for _, cs := range v.Body.List {
+				cc := cs.(*ast.CaseClause)
+				if cc.List == nil {
+					deflt = cc
+					continue
+				}
+				hit := false
+				for _, x := range cc.List {
+					if v.Tag == nil {
+						hit = hit || e.evalBool(x)
+					} else {
+						hit = hit || e.evalInt(v.Tag) == e.evalInt(x)
+					}
+				}
+				if e.err != "" {
+					return false, true
+				}
+				if hit {
+					taken = true
+					if res, ret := e.run(cc.Body); ret {
+						return res, true
+					}
+					break
+				}
+			}
+			if !taken && deflt != nil {
+				if res, ret := e.run(deflt.Body); ret {
+					return res, true
+				}
+			}
 		default:
 			e.err = fmt.Sprintf("unsupported statement %T", s)
 		}
@@ -893,10 +991,40 @@ func c13Sort(p *core.Program, r *core.Report, t *types.Named) {
 			continue
 		}
 		var pn []string
+		var pobjs []types.Object
 		for _, f := range lit.Type.Params.List {
 			for _, n := range f.Names {
 				pn = append(pn, n.Name)
+				pobjs = append(pobjs, info.Defs[n])
 			}
+		}
+		// two element records (a, b), or the records spread out as (index1, value1, index2, value2)
+		var elemOf func(e ast.Expr) (int, string)
+		if len(pn) == 4 {
+			it := func(k int) bool {
+				b, ok := info.TypeOf(lit.Type.Params.List[0].Type).Underlying().(*types.Basic)
+				_ = k
+				return ok && b.Kind() == types.Int
+			}
+			_ = it
+			elemOf = func(e ast.Expr) (int, string) {
+				id, ok := ast.Unparen(stripConvs(info, e)).(*ast.Ident)
+				if !ok {
+					return 0, ""
+				}
+				obj := info.ObjectOf(id)
+				for k, po := range pobjs {
+					if po != nil && po == obj {
+						role := "key"
+						if k%2 == 1 {
+							role = "value"
+						}
+						return k/2 + 1, role
+					}
+				}
+				return 0, ""
+			}
+			pn = []string{pn[1], pn[3]}
 		}
 		if len(pn) != 2 {
 			r.Undec("C13.sort", c, pos, "comparator does not take two elements")
@@ -914,7 +1042,7 @@ func c13Sort(p *core.Program, r *core.Report, t *types.Named) {
 				}
 				for _, C := range cs {
 					env := &cmpEnv{info: info, P: P, C: C, bools: map[string]bool{"asc": asc, "childAsc": true}, ints: map[types.Object]int{}, o1: pn[0], o2: pn[1],
-						inl: newInliner(p, fi, func(fn *types.Func) bool { return fn.Name() == "CompareChild" }), bind: bind}
+						inl: newInliner(p, fi, func(fn *types.Func) bool { return fn.Name() == "CompareChild" }), bind: bind, elemOf: elemOf}
 					got, ret := env.run(lit.Body.List)
 					evals++
 					if env.err != "" || !ret {
@@ -1078,6 +1206,9 @@ func c13Sort(p *core.Program, r *core.Report, t *types.Named) {
 				}
 				return true
 			})
+		}
+		if !(build && outk) && c13ColumnsPerm(p, fi, bodies) {
+			build, outk = true, true
 		}
 		r.Check(build && outk, "C13.perm", c, pos, "table[i] = {i, get(i)} for every i; out[i] = table[i].key", "the result is not built from one (index, value) pair per index read back by position")
 	}
@@ -1688,4 +1819,125 @@ func c13ReturnsAtLeast(fi *core.FuncInfo, param types.Object) (bool, string) {
 		}
 	}
 	return n > 0, ""
+}
+
+// c13ColumnsPerm: the permutation kept as parallel columns instead of (index, value) records. Some
+// body initialises an index column to the identity (K[i] = i for the loop index i), the sorter handed
+// to sort.Sort swaps every slice column of its struct at the same two positions, and the method
+// returns an index column. The result is then a permutation of 0..n-1 by construction, moved in step
+// with the values.
+func c13ColumnsPerm(p *core.Program, fi *core.FuncInfo, bodies []*core.FuncInfo) bool {
+	identity := false
+	for _, b := range bodies {
+		binfo := b.Pkg.TypesInfo
+		ast.Inspect(b.Decl.Body, func(n ast.Node) bool {
+			var idx types.Object
+			var body *ast.BlockStmt
+			switch v := n.(type) {
+			case *ast.ForStmt:
+				if as, ok := v.Init.(*ast.AssignStmt); ok && len(as.Lhs) == 1 {
+					if id, ok := as.Lhs[0].(*ast.Ident); ok {
+						idx, body = binfo.ObjectOf(id), v.Body
+					}
+				}
+			case *ast.RangeStmt:
+				if id, ok := v.Key.(*ast.Ident); ok && id.Name != "_" {
+					idx, body = binfo.ObjectOf(id), v.Body
+				}
+			}
+			if idx == nil || body == nil {
+				return true
+			}
+			for _, st := range body.List {
+				as, ok := st.(*ast.AssignStmt)
+				if !ok || len(as.Lhs) != 1 || len(as.Rhs) != 1 {
+					continue
+				}
+				ix, ok := ast.Unparen(as.Lhs[0]).(*ast.IndexExpr)
+				if !ok {
+					continue
+				}
+				li, ok1 := ast.Unparen(ix.Index).(*ast.Ident)
+				ri, ok2 := ast.Unparen(stripConvs(binfo, as.Rhs[0])).(*ast.Ident)
+				if ok1 && ok2 && binfo.ObjectOf(li) == idx && binfo.ObjectOf(ri) == idx {
+					identity = true
+				}
+			}
+			return true
+		})
+	}
+	if !identity {
+		return false
+	}
+	// the sorter: the argument of sort.Sort; its Swap exchanges every slice field at (i, j)
+	info := fi.Pkg.TypesInfo
+	swapsAll := false
+	ast.Inspect(fi.Decl.Body, func(n ast.Node) bool {
+		call, ok := n.(*ast.CallExpr)
+		if !ok || len(call.Args) != 1 || !isCallTo(info, call, "sort", "Sort") {
+			return true
+		}
+		nt := namedOf(info.TypeOf(call.Args[0]))
+		if nt == nil {
+			return true
+		}
+		st, ok := nt.Underlying().(*types.Struct)
+		if !ok {
+			return true
+		}
+		var cols []string
+		for k := 0; k < st.NumFields(); k++ {
+			if _, isSlice := st.Field(k).Type().Underlying().(*types.Slice); isSlice {
+				cols = append(cols, st.Field(k).Name())
+			}
+		}
+		for _, m := range p.MethodsOf(nt) {
+			if m.Obj.Name() != "Swap" || m.Decl.Body == nil || m.Decl.Type.Params.NumFields() == 0 {
+				continue
+			}
+			swapped := map[string]bool{}
+			ast.Inspect(m.Decl.Body, func(k ast.Node) bool {
+				as, ok := k.(*ast.AssignStmt)
+				if !ok || len(as.Lhs) != 2 || len(as.Rhs) != 2 {
+					return true
+				}
+				l0, l1 := stripSpaces(types.ExprString(as.Lhs[0])), stripSpaces(types.ExprString(as.Lhs[1]))
+				r0, r1 := stripSpaces(types.ExprString(as.Rhs[0])), stripSpaces(types.ExprString(as.Rhs[1]))
+				if l0 == r1 && l1 == r0 && l0 != l1 {
+					if ix, ok := ast.Unparen(as.Lhs[0]).(*ast.IndexExpr); ok {
+						if sel, ok := ast.Unparen(ix.X).(*ast.SelectorExpr); ok {
+							swapped[sel.Sel.Name] = true
+						}
+					}
+				}
+				return true
+			})
+			all := len(cols) >= 2
+			for _, cn := range cols {
+				if !swapped[cn] {
+					all = false
+				}
+			}
+			swapsAll = all
+		}
+		return true
+	})
+	if !swapsAll {
+		return false
+	}
+	// the method returns an []int column
+	returnsCol := false
+	ast.Inspect(fi.Decl.Body, func(n ast.Node) bool {
+		if rs, ok := n.(*ast.ReturnStmt); ok && len(rs.Results) == 1 {
+			if _, isId := ast.Unparen(rs.Results[0]).(*ast.Ident); isId {
+				if sl, ok := info.TypeOf(rs.Results[0]).Underlying().(*types.Slice); ok {
+					if b, ok := sl.Elem().Underlying().(*types.Basic); ok && b.Kind() == types.Int {
+						returnsCol = true
+					}
+				}
+			}
+		}
+		return true
+	})
+	return returnsCol
 }
